@@ -67,12 +67,26 @@ SEV = {"DepSkip": 0, "Skip": 1, "Ok": 2, "Retry": 3, "PermFail": 4}
 # values <-> tagged trees <-> Gallina
 # --------------------------------------------------------------------------
 
+def error_td(err) -> bool:
+    """Does celpy's tree_dump succeed on this error's tree (or has it none)?  koreo calls
+    tree_dump(err.tree) when it builds the PermFail; tree_dump raises IndexError on some trees."""
+    from celpy.celparser import tree_dump
+    tree = getattr(err, "tree", None)
+    if not tree:
+        return True
+    try:
+        tree_dump(tree)
+        return True
+    except Exception:
+        return False
+
+
 def tree_of(v):
     """Python / celpy value -> tagged tree (JSON-able)."""
     import celpy
     from celpy import celtypes
     if isinstance(v, celpy.CELEvalError):
-        return ["e"]
+        return ["e", error_td(v)]
     if v is None:
         return ["n"]
     if isinstance(v, (bool, celtypes.BoolType)):
@@ -108,7 +122,7 @@ def c_tree(t) -> str:
     if k == "o":
         return f"(VOther {cstr(t[1])})"
     if k == "e":
-        return "VErr"
+        return f"(VErr {cbool(t[1] if len(t) > 1 else True)})"
     if k == "l":
         return "(VList " + clist(t[1], c_tree) + ")"
     if k == "m":
@@ -118,7 +132,7 @@ def c_tree(t) -> str:
 
 def c_raw(r) -> str:
     if r[0] == "raise":
-        return "RRaise"
+        return f"(RRaise {cbool(r[1] if len(r) > 1 else True)})"
     if r[0] == "raise_other":
         return "RRaiseOther"
     return f"(RVal {c_tree(r[1])})"
@@ -172,13 +186,35 @@ class Builder:
         return {k: self.spec(d) for k, d in doc[1]}
 
 
+_TD_CACHE: dict = {}
+
+
+def leaf_td(src: str) -> bool:
+    """tree_dump-ability of the error VALUE a failing leaf expression yields (learned from celpy
+    once per expression: evaluate {"x": <expr>} and look at the embedded error's tree)."""
+    if src not in _TD_CACHE:
+        import celpy
+        from koreo.cel.functions import koreo_cel_functions
+        td = True
+        try:
+            env = cel_env()
+            prog = env.program(env.compile('{"x": ' + src.lstrip("=") + "}"), functions=koreo_cel_functions)
+            v = prog.evaluate({"inputs": celpy.json_to_cel({})})
+            if isinstance(v, dict) and isinstance(v.get("x"), celpy.CELEvalError):
+                td = error_td(v["x"])
+        except Exception:
+            td = True
+        _TD_CACHE[src] = td
+    return _TD_CACHE[src]
+
+
 def leaf_tree(leaf):
     k = leaf[0]
     if k in ("lit", "in"):
         return tree_of(leaf[1])
     if k == "cel":
         return tree_of(leaf[2])
-    return ["e"]                # err (and raise: never reaches the model as a value)
+    return ["e", leaf_td(leaf[1])]    # err (and raise: never reaches the model as a value)
 
 
 def doc_tree(doc):
@@ -186,7 +222,8 @@ def doc_tree(doc):
         return leaf_tree(doc[1])
     if doc[0] == "A":       # celpy: a list literal with a failing item is itself an error value
         items = [doc_tree(d) for d in doc[1]]
-        return ["e"] if any(i == ["e"] for i in items) else ["l", items]
+        errs = [i for i in items if i[0] == "e"]
+        return errs[0] if errs else ["l", items]
     return ["m", [[["s", k], doc_tree(d)] for k, d in doc[1]]]
 
 
@@ -243,8 +280,8 @@ def recording():
     def wrapped(self, *a, **kw):
         try:
             v = orig(self, *a, **kw)
-        except celpy.CELEvalError:
-            log.append((self, ["raise"]))
+        except celpy.CELEvalError as e:
+            log.append((self, ["raise", error_td(e)]))
             raise
         except BaseException:
             log.append((self, ["raise_other"]))
@@ -339,6 +376,8 @@ def run_pred(case):
             obs = ["raised", type(e).__name__]
     raws = [x for (rn, x) in log if rn is prog]
     raw = raws[0] if len(raws) == 1 else ["raise_other"]
+    if obs[0] == "raised":
+        obs = ["raised", obs[1], raw]
     return raw, obs
 
 
@@ -475,7 +514,7 @@ def term_pred(case, raw, obs) -> str:
 def term_vf(case, out) -> str:
     pre = "None" if not out["has"]["pre"] else "(Some " + clist([doc_tree(p) for p in case["preds"]], c_tree) + ")"
     pre_raw = copt(out["raws"].get("pre"), c_raw)
-    placeholder = ["raise"]
+    placeholder = ["raise", True]
 
     def site(name):
         if not out["has"][name]:
@@ -496,7 +535,7 @@ def term_vf(case, out) -> str:
 def term_rf(case, out) -> str:
     pre = "None" if not out["has"]["pre"] else "(Some " + clist([doc_tree(p) for p in case["preds"]], c_tree) + ")"
     pre_raw = copt(out["raws"].get("pre"), c_raw)
-    locals_ = "None" if not out["has"]["locals"] else f"(Some {c_raw(out['raws'].get('locals', ['raise']))})"
+    locals_ = "None" if not out["has"]["locals"] else f"(Some {c_raw(out['raws'].get('locals', ['raise', True]))})"
     trace = clist(out["trace"], lambda s: SITES[s])
     return (f"CRf {pre} {pre_raw} {locals_} {cstr(LOC)} {cbool(bool(out['touches']))} "
             f"{c_obs(out['obs'])} {trace}")
@@ -552,10 +591,21 @@ def leaf_value(leaf):
 CLS_OF_KIND = {"depSkip": 0, "skip": 1, "retry": 3, "permFail": 4}
 
 
+TREE_DUMP_DEFECT = "(tree_dump IndexError in the CELEvalError handler)"
+
+
+def escape_signature(prefix: str, exc: str, raws) -> str:
+    """Signature of an escaping exception; the known tree_dump defect gets its own."""
+    if exc == "IndexError" and any(r[0] == "raise" and len(r) > 1 and r[1] is False for r in raws):
+        return f"{prefix}: exception escapes {TREE_DUMP_DEFECT}"
+    return f"{prefix}: exception escapes"
+
+
 def oracle_pred(preds, obs):
     """None if the property holds on this case, else (signature, reason)."""
     if obs[0] == "raised":
-        return ("pred: exception escapes", f"evaluate_predicates raised {obs[1]}")
+        return (escape_signature("pred", obs[1], [obs[2]] if len(obs) > 2 else []),
+                f"evaluate_predicates raised {obs[1]}")
     if obs[0] == "val" or (obs[0] == "out" and obs[1] == 2):
         return ("pred: result is not an outcome", "evaluate_predicates returned a value")
     views = [view(p) for p in preds]
@@ -619,13 +669,14 @@ def oracle_vf(case, out):
     """Function level: a non-continue precondition outcome is the result, the body is not evaluated."""
     obs, trace = out["obs"], out["trace"]
     if obs[0] == "raised":
-        return ("vf: exception escapes", f"reconcile_value_function raised {obs[1]}")
+        return (escape_signature("vf", obs[1], out["raws"].values()),
+                f"reconcile_value_function raised {obs[1]}")
     if "?" in trace:
         return None
     if case["preds"] is None or not out["has"]["pre"]:
         return None
     pre_obs = case["_pre_obs"]           # what evaluate_predicates alone returned for these predicates
-    if pre_obs is None:
+    if pre_obs is None or pre_obs[0] == "raised":
         return None
     if pre_obs[0] != "none":
         if [s for s in trace if s != "pre"]:
@@ -646,7 +697,10 @@ def oracle_rf(case, out, pre_obs):
     """Preconditions decided => the cluster is not touched, nothing else is evaluated, and the
     precondition outcome is the result."""
     obs, trace = out["obs"], out["trace"]
-    if pre_obs is None or not out["has"]["pre"]:
+    if obs[0] == "raised" and obs[1] != "Touched":
+        return (escape_signature("rf", obs[1], out["raws"].values()),
+                f"reconcile_resource_function raised {obs[1]}")
+    if pre_obs is None or not out["has"]["pre"] or pre_obs[0] == "raised":
         return None
     if pre_obs[0] != "none":
         if out["touches"]:
@@ -697,7 +751,14 @@ NONBOOL_LEAVES = [["lit", "false"], ["lit", "true"], ["in", 5], ["in", 0], ["in"
                   ["in", {"assert": True}]]
 ERR_LEAVES = [["err", "=1/0"], ["err", "=inputs.nope"], ["err", "=inputs.nope.x"], ["err", "=to_ref({})"],
               ["err", "=from_json('{')"], ["err", "=[1][5]"], ["err", "=int('x')"],
-              ["raise", "=[1].map(x, x/0)"], ["raise", "=[1, 2].filter(x, x/0 == 1)"]]
+              ["raise", "=[1].map(x, x/0)"], ["raise", "=[1, 2].filter(x, x/0 == 1)"],
+              # error VALUES whose tree celpy's tree_dump cannot print
+              ["err", "=inputs.nope == []"], ["err", "=inputs.nope ? 1 : {}"],
+              # RAISED errors with such a tree: koreo's except handler itself raises (known finding)
+              ["raise", "=[1].map(x, inputs.nope == [])"]]
+# a Python ValueError inside celpy is caught by the nearest enclosing map literal, whose whole tree
+# becomes the error's tree: with `ok: {}` next to it that tree is undumpable (known finding)
+VALUE_ERROR_ASSERT = ["raise", "=[1, 2, 3].map(x, x > 1, x * 2)"]
 MSG_OK = [["lit", "plain message"], ["in", "from inputs"], ["in", "quote \" and\nnewline ü"], ["cel", "='a' + 'b'", "ab"],
           ["in", ""], ["in", 5], ["in", None], ["in", True], ["in", 2.5], ["in", "Error: not really"]]
 DELAY_OK = [["lit", 5], ["lit", 0], ["in", 7], ["lit", 3600], ["in", 2 ** 40], ["lit", -1]]
@@ -785,6 +846,13 @@ def rand_pred(rng, i, p_false, noise):
         else:
             return pred(a, kind, msg, delay, assert_last=rng.random() < 0.5, extra="x")
     return pred(a, kind, msg, delay, assert_last=rng.random() < 0.3)
+
+
+def gen_special(ctx: Ctx):
+    for kind in KINDS:
+        for truth in (True, False):
+            yield {"mode": "pred", "preds": [std_pred(0, "skip", truth), pred(VALUE_ERROR_ASSERT, kind, ["lit", "m"], ["lit", 3])],
+                   "tag": "special:python-exception-in-assert"}
 
 
 def gen_random(ctx: Ctx):
@@ -886,6 +954,7 @@ def gen_cases(ctx: Ctx):
         yield c
     yield from gen_exhaustive(ctx)
     yield from gen_positions(ctx)
+    yield from gen_special(ctx)
     yield from gen_random(ctx)
     yield from gen_vf(ctx)
     yield from gen_rf(ctx)
